@@ -26,6 +26,6 @@ void eval_burgers(Ctx& c) {
 }  // namespace
 void reg_misc() {
   { Sol s; s.name = "laplace_2d"; s.prop = "C04"; s.nargs = 2; s.draw = draw_laplace; s.point = box_point; s.eval = eval_laplace; s.stretch = 1; s.special_ok = [](const std::string&) { return 2; }; add(s); }
-  { Sol s; s.name = "burgers_equation"; s.prop = "C04"; s.nargs = 3; s.draw = roy_draw; s.point = box_point; s.eval = eval_burgers; s.stretch = 1; s.special_ok = [](const std::string& n) { return n == "nu" ? 2 : default_special_ok(n); }; add(s); }
+  { Sol s; s.name = "burgers_equation"; s.prop = "C04"; s.nargs = 3; s.draw = roy_draw; s.point = box_point; s.eval = eval_burgers; s.stretch = 1; s.nodal = roy_nodal; s.special_ok = [](const std::string& n) { return n == "nu" ? 2 : default_special_ok(n); }; add(s); }
 }
 }  // namespace orc
